@@ -324,7 +324,16 @@ def u7(ctx, rid):
                 calls = [o.data for o in ogs if o.kind == 'call' and is_query(o.data)]
                 good = [c for c in calls if c.name == 'get_all_with_deletion_marker']
                 other = [c for c in calls if c.name != 'get_all_with_deletion_marker']
-                if good and not other:
+                # .. and only once the live versions in front of the marker were searched for the requested metadata
+                filt = [c.bb for c in f.calls if c.bb in f.reachable() and c.name == 'filter_entries']
+                # .. or the search loop itself when it is written out here: the header of a loop that loads entry metadata
+                import props.c13 as c13
+                for (h, body) in c13.natural_loops(f):
+                    if any(c.bb in body and c.name in ('load_meta', 'filter_entries') for c in f.calls):
+                        filt.append(h)
+                if good and not other and (not filt or i in f.reach_from([0], avoid_enter=filt)):
+                    ctx.bad(rid, key + '|after-filter', f.where(i), 'Deleted is answered without the versions in front of the marker having been searched for the requested metadata: a record written after the deletion is reported as deleted')
+                elif good and not other:
                     ctx.ok(rid, key, f.where(i), 'the Deleted timestamp comes from the list returned by get_all_with_deletion_marker')
                 else:
                     ctx.bad(rid, key, f.where(i), 'the Deleted answer of the meta lookup is derived from `%s`, not from the marker-terminated list: a deletion older than newer non-matching records is answered differently (NotFound instead of Deleted or vice versa)' % (other[0].name if other else 'no list'))
@@ -688,6 +697,48 @@ def u14(ctx, rid):
         raise core.AnchorLost('entry sources feeding a guarded cross-blob merge: %d' % n)
 
 
+def u15(ctx, rid):
+    """`read_all is that list without the marker`: the marker of a marker-terminated version list is its LAST element (the list
+    is cut right after the first marker, C02.U5) and newer live versions stand in front of it.  Storage::read_all therefore
+    decides on the last element and removes exactly that one: every is_deleted() test in it looks at `last()`, and the only
+    removals from the list are `pop()` / `truncate(len - 1)`."""
+    prog = ctx.prog
+    f = prog.body_of('storage::core::Storage::<K>::read_all')
+    if f is None:
+        raise core.AnchorLost('Storage::read_all')
+    fam = [prog.fns[x] for x in prog.family(prog.fns[f.id].root)]
+    key = 'strips-exactly-the-trailing-marker|storage::core::Storage::<K>::read_all'
+    bad = None
+    tests = 0
+    for g in fam:
+        for c in g.calls:
+            if c.bb not in g.reachable():
+                continue
+            if c.name == 'is_deleted' and c.args:
+                tests += 1
+                ogs = core.origins_ip(prog, g, c.args[0], depth=1)
+                src = [o.data.name for o in ogs if o.kind == 'call']
+                if not src or not all(n_ in ('last', 'last_mut', 'pop', 'next_back', 'split_last') for n_ in src):
+                    bad = (c, 'the deletion test of read_all looks at `%s`, not at the last element of the marker-terminated list' % (src[0] if src else 'another element'))
+            if c.path.startswith('std::vec::Vec') and 'Entry' in c.full and c.name in ('clear', 'retain', 'remove', 'drain', 'split_off', 'swap_remove', 'truncate', 'dedup_by', 'retain_mut'):
+                if c.name == 'truncate' and len(c.args) > 1:
+                    ok = False
+                    for o in core.origins(g, c.args[1]):
+                        if o.kind == 'binop' and o.data['op'].startswith('Sub'):
+                            k = op_const(o.data['b'])
+                            if k and k.get('int') == 1 and any(x.kind == 'call' and x.data.name == 'len' for x in core.origins(g, o.data['a'])):
+                                ok = True
+                    if ok:
+                        continue
+                bad = (c, 'read_all removes entries with `%s`, not exactly the one trailing marker (pop / truncate(len - 1)): live versions newer than a deletion disappear or the marker itself is returned' % c.name)
+    if bad:
+        ctx.bad(rid, key, bad[0].where(), bad[1])
+    elif tests < 1:
+        raise core.AnchorLost('is_deleted test in Storage::read_all')
+    else:
+        ctx.ok(rid, key, f.where(), 'is_deleted() asked of last(); removal by pop / truncate(len - 1)')
+
+
 RULES = [
     Rule('C02.U1', 'the append in the write path is dominated by the duplicate policy branch; a found duplicate is acknowledged without storing', u1, 1),
     Rule('C02.U2', 'closed blobs are only ever marked with only_if_presented = true', u2, 2),
@@ -702,5 +753,6 @@ RULES = [
     Rule('C02.U12', 'a plain write passes None metadata to the duplicate check', u12, 1),
     Rule('C02.U13', 'delete_core visits the closed blobs on every path that returns Ok', u13, 1),
     Rule('C02.U14', 'every blob that contributes entries advances the counter that enables the cross-blob merge', u14, 2),
+    Rule('C02.U15', 'read_all strips exactly the trailing deletion marker of the marker-terminated list', u15, 1),
     Rule('C02.U6', 'the point lookup consults every candidate closed blob before it returns Ok', u6, 1),
 ]
